@@ -307,8 +307,11 @@ func (d c07) Execute(c *core.Case) *core.Result {
 			res.Stat("verdicts_must_reject", 1)
 			if v.Class == "accept" {
 				res.Violate("C07", "violation-tolerated", fmt.Sprintf("full verification of %s succeeded although %s; entries %v", ref, why, pattern), op.ID)
+			} else if strings.HasPrefix(v.Class, "panic") {
+				res.Violate("C07", "panic", fmt.Sprintf("full verification of %s panicked: %q", ref, v.Err), op.ID)
 			} else if v.Class != "reject" && v.Class != "notfound" {
-				res.Violate("C07", "unexpected-error", fmt.Sprintf("full verification of %s failed with unclassified error %q (expected a policy rejection: %s)", ref, v.Err, why), op.ID)
+				// the statement asks for a failure, not for a particular error: counted, not reported
+				res.Stat("rejections_with_an_unclassified_error", 1)
 			}
 		case mustAccept:
 			res.Stat("recovered_histories", 1)
